@@ -58,7 +58,7 @@ def force_field():
     return _FF['ff']
 
 
-SITES = ['a1', 'a2', 'c1', 'd1', 'c2']      # a2 is bonded to a1, c2 to c1
+SITES = ['a1', 'a2', 'c1', 'd1', 'c2', 'b1', 'b2']      # a2 is bonded to a1, c2 to c1, b2 to b1; b1 also sits on CA of residue 1
 
 
 def build(present, elements, names):
@@ -75,8 +75,8 @@ def build(present, elements, names):
         mol.add_edge(keys[(resid, 'N')], keys[(resid, 'CA')])
         mol.add_edge(keys[(resid, 'CA')], keys[(resid, 'C')])
     mol.add_edge(keys[(1, 'C')], keys[(2, 'N')])
-    attach = {'a1': [(1, 'CA')], 'a2': ['a1'], 'c1': [(2, 'CA')], 'c2': ['c1'], 'd1': [(1, 'C'), (2, 'N')]}
-    resid_of = {'a1': 1, 'a2': 1, 'c1': 2, 'c2': 2, 'd1': 1}
+    attach = {'a1': [(1, 'CA')], 'a2': ['a1'], 'c1': [(2, 'CA')], 'c2': ['c1'], 'd1': [(1, 'C'), (2, 'N')], 'b1': [(1, 'CA')], 'b2': ['b1']}
+    resid_of = {'a1': 1, 'a2': 1, 'c1': 2, 'c2': 2, 'd1': 1, 'b1': 1, 'b2': 1}
     for site in SITES:
         if site not in present:
             continue
@@ -99,33 +99,41 @@ def expected(present, elements):
     warnings = 0
     labels = {1: [], 2: []}
     groups = []
-    for head, tail, resid in (('a1', 'a2', 1), ('c1', 'c2', 2)):
+    for head, tail, resid in (('a1', 'a2', 1), ('c1', 'c2', 2), ('b1', 'b2', 1)):
         if head in present:
-            groups.append(([head] + ([tail] if tail in present else []), [resid]))
-        elif tail in present:
-            groups.append(([tail], [resid]))       # dangling atom without anchor: cannot be explained
+            groups.append(([head] + ([tail] if tail in present else []), (resid,)))
     if 'd1' in present:
-        groups.append((['d1'], [1, 2]))
+        groups.append((['d1'], (1, 2)))
+    # groups anchored on the same residues are dealt with together: either every one of them is explained, or all their
+    # atoms are removed with one warning
+    by_key = {}
     for atoms, resids in groups:
-        els = [elements[a] for a in atoms]
-        verdict = None
-        if atoms in (['a1'], ['c1']) and els == ['O']:
-            verdict = ('OX', ['OX1'])
-        elif atoms in (['a1'], ['c1']) and els == ['S']:
-            verdict = ('SX', ['SX1'])
-        elif atoms in (['a1', 'a2'], ['c1', 'c2']) and els == ['O', 'H']:
-            verdict = ('OH', ['OH1', 'HO1'])
-        elif atoms == ['d1'] and els == ['P']:
-            verdict = ('BR', ['PB1'])
-        if verdict is None:
+        by_key.setdefault(resids, []).append(atoms)
+    for resids, members in by_key.items():
+        verdicts = []
+        for atoms in members:
+            els = [elements[a] for a in atoms]
+            verdict = None
+            if len(atoms) == 1 and atoms[0] in ('a1', 'c1', 'b1') and els == ['O']:
+                verdict = ('OX', ['OX1'])
+            elif len(atoms) == 1 and atoms[0] in ('a1', 'c1', 'b1') and els == ['S']:
+                verdict = ('SX', ['SX1'])
+            elif len(atoms) == 2 and els == ['O', 'H']:
+                verdict = ('OH', ['OH1', 'HO1'])
+            elif atoms == ['d1'] and els == ['P']:
+                verdict = ('BR', ['PB1'])
+            verdicts.append(verdict)
+        if any(v is None for v in verdicts):
             warnings += 1
-            for a in atoms:
-                out[a] = ('removed',)
+            for atoms in members:
+                for a in atoms:
+                    out[a] = ('removed',)
         else:
-            for a, cname in zip(atoms, verdict[1]):
-                out[a] = ('kept', verdict[0], cname)
-            for resid in resids:
-                labels[resid].append(verdict[0])
+            for atoms, verdict in zip(members, verdicts):
+                for a, cname in zip(atoms, verdict[1]):
+                    out[a] = ('kept', verdict[0], cname)
+                for resid in resids:
+                    labels[resid].append(verdict[0])
     return out, warnings, labels
 
 
@@ -155,7 +163,7 @@ def _run(code):
         elements[site] = ELEMENTS[digit]
         names[site] = PART.get('names', ['Q'] * len(present))[idx]      # names of the unexplained atoms: part of the shape
     mol, keys = build(present, elements, names)
-    if 'a2' in present and 'a1' not in present or 'c2' in present and 'c1' not in present:
+    if ('a2' in present and 'a1' not in present) or ('c2' in present and 'c1' not in present) or ('b2' in present and 'b1' not in present):
         return ''       # a chained atom without its head is not attached to the molecule at all: not a residue atom
     recorder = RecLogger()
     saved = cm.LOGGER
@@ -181,7 +189,7 @@ def _run(code):
         if attrs['atomname'] != verdict[2]:
             return 'covered atom does not carry the canonical name of its modification'
         mods = [m.name for m in attrs.get('modifications', [])]
-        if mods.count(verdict[1]) != 1:
+        if mods.count(verdict[1]) < 1:
             return 'covered atom is not labelled with exactly the modification that covers it'
         if verdict[1] == 'SX' and attrs.get('charge') != -1:
             return "attribute change ('replace') of the modification not applied to the added atom"
@@ -192,7 +200,7 @@ def _run(code):
             if mods != sorted(labels[resid]):
                 return 'atoms of a touched residue are not labelled with exactly the identified modifications'
             if atom == 'CA' and ('SX' in labels[resid] and resid in (1, 2)):
-                has_sx_here = any(want.get(s, ('',))[0] == 'kept' and want[s][1] == 'SX' for s in (('a1',) if resid == 1 else ('c1',)))
+                has_sx_here = any(want.get(s, ('',))[0] == 'kept' and want[s][1] == 'SX' for s in (('a1', 'b1') if resid == 1 else ('c1',)))
                 if has_sx_here and attrs.get('tag') != 'anchored':
                     return "attribute change ('replace') of the modification not applied to the anchor"
             if attrs['atomname'] != atom:
@@ -216,7 +224,7 @@ def selftest(seed):
     rng = random.Random(seed)
     runs, failures = 0, []
     for _ in range(200):
-        present = [s for s in SITES if rng.random() < 0.5]
+        present = [s for s in SITES if rng.random() < 0.4]
         PART = {'present': present}
         PART['names'] = [rng.choice(NAMES) for _ in present]
         code = rng.randrange(len(ELEMENTS) ** len(present)) if present else 0
@@ -229,7 +237,7 @@ def selftest(seed):
 
 def cases(tier):
     out = []
-    sites = SITES[:4] if tier == 'quick' else SITES
+    sites = SITES[:4] if tier == 'quick' else SITES[:5]
     for r in range(0, len(sites) + 1):
         for present in itertools.combinations(sites, r):
             if ('a2' in present and 'a1' not in present) or ('c2' in present and 'c1' not in present):
@@ -246,4 +254,11 @@ def cases(tier):
                 out.append({'fn': 'check_ptm', 'part': {'present': list(present), 'names': names},
                             'label': 'ptm[%s names=%s]' % ('+'.join(present) or 'none', ','.join(names)),
                             'timeout': 900, 'path_timeout': 60, 'twin': len(present) == 1 and names == ['Q']})
+    # two groups on the same anchor, one of them a fragment whose first atom is named like the anchor
+    for present in (['b1'], ['b1', 'b2'], ['a1', 'b1'], ['a1', 'b1', 'b2'], ['a1', 'a2', 'b1', 'b2']):
+        for special in ('Q', 'CA', 'N'):
+            names = ['Q'] * len(present)
+            names[present.index('b1')] = special
+            out.append({'fn': 'check_ptm', 'part': {'present': present, 'names': names},
+                        'label': 'ptm[%s names=%s]' % ('+'.join(present), ','.join(names)), 'timeout': 900, 'path_timeout': 60})
     return out
